@@ -174,4 +174,345 @@ theorem epsilon_eq (hq : q.WF) (ht : IsTemplateOf t q.hydro) : t.epsilon = q.eps
 
 end fields
 
+/-! ## Junction algebra at the wall -/
+
+/-- The code's expression for `α₊` from `(v₊, v₋)` (eq. 20a of arXiv:2303.10171 solved for `α₊`),
+exactly as it appears in `_shooting` / `findMatching`. -/
+noncomputable def alphaCode (vp vm cb2 : ℝ) : ℝ :=
+  (((((vp / vm) - (1 : ℝ)) * (((vp * vm) / cb2) - (1 : ℝ))) / ((1 : ℝ) - (vp ^ 2))) / (3 : ℝ))
+
+theorem junction_defect {wp pp wm vp vm cb2 nu : ℝ}
+    (hvm : vm ≠ 0) (hvm1 : 1 - vm ^ 2 ≠ 0) (hvp1 : 1 - vp ^ 2 ≠ 0) (hcb : cb2 ≠ 0) (hnu0 : nu ≠ 0)
+    (hnu : nu * cb2 = cb2 + 1)
+    (E : wp * gammaSq vp * vp = wm * gammaSq vm * vm) :
+    (wp * gammaSq vp * vp ^ 2 + pp) - (wm * gammaSq vm * vm ^ 2 + wm / nu)
+      = pp - wp / nu * (1 - 3 * alphaCode vp vm cb2) := by
+  have hvm1' : 1 - vm * vm ≠ 0 := by rwa [← pow_two]
+  have hvp1' : 1 - vp * vp ≠ 0 := by rwa [← pow_two]
+  have hc1 : cb2 + 1 ≠ 0 := by rw [← hnu]; exact mul_ne_zero hnu0 hcb
+  have hnu' : nu = (cb2 + 1) / cb2 := by field_simp; linarith
+  have hwm : wm = wp * gammaSq vp * vp * (1 - vm * vm) / vm := by
+    unfold gammaSq at E ⊢; field_simp at E ⊢; linarith
+  rw [hwm, hnu']; unfold gammaSq alphaCode
+  field_simp
+  ring
+
+/-! ## The template EOS inside the template solver's formulas -/
+
+section eos
+variable {q : TPar} {t : TemplP}
+
+theorem wH_pos (hq : q.WF) {T : ℝ} (hT : 0 < T) : 0 < q.hydro.wHighT T := by
+  have := Real.rpow_pos_of_pos hT q.mu
+  have := hq.ap_pos; have := hq.mu_gt
+  simp only [TPar.hydro]; positivity
+
+/-- `findHydroBoundaries` (template): `wN·(Tp/Tn)^μ` is the template EOS enthalpy at `Tp`. -/
+theorem wH_scale (hq : q.WF) (ht : IsTemplateOf t q.hydro) {Tp : ℝ} (hTp : 0 ≤ Tp) :
+    t.wN * WG.R.rpow (Tp / t.Tnucl) t.mu = q.hydro.wHighT Tp := by
+  have hT := (Real.rpow_pos_of_pos hq.Tn_pos q.mu).ne'
+  rw [wN_eq ht, Tnucl_eq ht, mu_eq hq ht]
+  simp only [WG.R.rpow, Real.rpow_eq_pow, TPar.hydro]
+  rw [Real.div_rpow hTp hq.Tn_pos.le]
+  field_simp
+
+/-- `findHydroBoundaries` (template): `pN + ((Tp/Tn)^μ − 1)·wN/μ` is the template EOS pressure at `Tp`. -/
+theorem pH_scale (hq : q.WF) (ht : IsTemplateOf t q.hydro) {Tp : ℝ} (hTp : 0 ≤ Tp) :
+    t.pN + ((WG.R.rpow (Tp / t.Tnucl) t.mu - 1) * t.wN) / t.mu = q.hydro.pHighT Tp := by
+  have hT := (Real.rpow_pos_of_pos hq.Tn_pos q.mu).ne'
+  have hmu : q.mu ≠ 0 := by linarith [hq.mu_gt]
+  rw [wN_eq ht, pN_eq ht, Tnucl_eq ht, mu_eq hq ht]
+  simp only [WG.R.rpow, Real.rpow_eq_pow, TPar.hydro]
+  rw [Real.div_rpow hTp hq.Tn_pos.le]
+  field_simp
+  ring
+
+/-- `_findTm` encodes energy-flux conservation `w₊γ₊²v₊ = w₋γ₋²v₋` on the template EOS. -/
+theorem findTm_energyFlux (hq : q.WF) (ht : IsTemplateOf t q.hydro) {vp vm Tp : ℝ}
+    (hvp : 0 < vp) (hvp1 : vp < 1) (hvm : 0 < vm) (hvm1 : vm < 1) (hTp : 0 ≤ Tp) :
+    q.hydro.wHighT Tp * gammaSq vp * vp = q.hydro.wLowT (findTm t vm vp Tp) * gammaSq vm * vm := by
+  have hA := Real.rpow_pos_of_pos hq.Tn_pos q.mu
+  have hB := Real.rpow_pos_of_pos hq.Tn_pos q.nu
+  have hP := Real.rpow_nonneg hTp q.mu
+  have hmu : 0 < q.mu := by linarith [hq.mu_gt]
+  have hnu : 0 < q.nu := by linarith [hq.nu_gt]
+  have hap := hq.ap_pos; have ham := hq.am_pos
+  have h1 : 0 < 1 - vp ^ 2 := by nlinarith
+  have h2 : 0 < 1 - vm ^ 2 := by nlinarith
+  have h1' : 0 < 1 - vp * vp := by nlinarith
+  have h2' : 0 < 1 - vm * vm := by nlinarith
+  simp only [findTm, WG.R.rpow, Real.rpow_eq_pow]
+  rw [psiN_eq ht, Tnucl_eq ht, mu_eq hq ht, nu_eq hq ht]
+  simp only [TPar.hydro]
+  generalize q.Tn ^ q.mu = A at *
+  generalize q.Tn ^ q.nu = B at *
+  generalize Tp ^ q.mu = P at *
+  set X := 3 / (q.mu * A) * vp * q.mu * (1 - vm ^ 2) * P /
+    (3 * (q.nu * q.am / 3 * B / (q.mu * q.ap / 3 * A)) / (q.nu * B) * vm * q.nu * (1 - vp ^ 2)) with hX
+  have hX0 : 0 ≤ X := by rw [hX]; positivity
+  rw [← Real.rpow_mul hX0, one_div_mul_cancel hnu.ne', Real.rpow_one, hX]
+  unfold gammaSq
+  field_simp
+end eos
+
+section alpha
+variable {q : TPar} {t : TemplP}
+
+/-- The transition strength `α(T)` of [ALvdV23], computed exactly like `__init__` computes `alN` but at an
+arbitrary temperature `T` (both phases at the same temperature). -/
+noncomputable def TPar.alphaAt (q : TPar) (T : ℝ) : ℝ :=
+  alN_set (q.hydro.wHighT T - q.hydro.pHighT T) (q.hydro.wLowT T - q.hydro.pLowT T)
+    (q.hydro.pHighT T) (q.hydro.pLowT T) (q.hydro.wHighT T) (q.hydro.csqLowT q.hydro.Tnucl)
+
+theorem alphaAt_Tn (ht : IsTemplateOf t q.hydro) : q.alphaAt q.Tn = t.alN := by
+  rw [ht.alN, ht.cb2]; rfl
+
+/-- `p₊(T) = w₊(T) (1 − 3 α(T)) / ν` on the template EOS. -/
+theorem pH_alphaAt (hq : q.WF) {T : ℝ} (hT : 0 < T) :
+    q.hydro.pHighT T = q.hydro.wHighT T / q.nu * (1 - 3 * q.alphaAt T) := by
+  have h : q.nu - 1 ≠ 0 := by linarith [hq.nu_gt]
+  have hnu : q.nu ≠ 0 := by linarith [hq.nu_gt]
+  have hmu : q.mu ≠ 0 := by linarith [hq.mu_gt]
+  have hP := (Real.rpow_pos_of_pos hT q.mu).ne'
+  have ha := hq.ap_pos.ne'
+  simp only [TPar.alphaAt, alN_set, TPar.hydro]
+  field_simp
+  ring
+
+/-- closed form `α(T) = (μ−ν)/(3μ) + ν ε /(3 w₊(T))`. -/
+theorem alphaAt_eq (hq : q.WF) {T : ℝ} (hT : 0 < T) :
+    q.alphaAt T = (q.mu - q.nu) / (3 * q.mu) + q.nu * q.eps / (3 * q.hydro.wHighT T) := by
+  have h : q.nu - 1 ≠ 0 := by linarith [hq.nu_gt]
+  have hnu : q.nu ≠ 0 := by linarith [hq.nu_gt]
+  have hmu : q.mu ≠ 0 := by linarith [hq.mu_gt]
+  have hP := (Real.rpow_pos_of_pos hT q.mu).ne'
+  have ha := hq.ap_pos.ne'
+  simp only [TPar.alphaAt, alN_set, TPar.hydro]
+  field_simp
+  ring
+
+/-- Momentum-flux defect across the wall on the template EOS, given energy-flux conservation:
+it is `3 w₊/ν · (α_code(v₊,v₋) − α(T₊))`. -/
+theorem momentum_defect_alpha (hq : q.WF) (ht : IsTemplateOf t q.hydro) {vp vm Tp Tm : ℝ}
+    (hvp1 : 1 - vp ^ 2 ≠ 0) (hvm : vm ≠ 0) (hvm1 : 1 - vm ^ 2 ≠ 0) (hTp : 0 < Tp)
+    (E : q.hydro.wHighT Tp * gammaSq vp * vp = q.hydro.wLowT Tm * gammaSq vm * vm) :
+    (q.hydro.wHighT Tp * gammaSq vp * vp ^ 2 + q.hydro.pHighT Tp)
+      - (q.hydro.wLowT Tm * gammaSq vm * vm ^ 2 + q.hydro.pLowT Tm)
+      = 3 * q.hydro.wHighT Tp / q.nu * (alphaCode vp vm t.cb2 - q.alphaAt Tp) := by
+  have hnu : q.nu ≠ 0 := by linarith [hq.nu_gt]
+  have hpm : q.hydro.pLowT Tm = q.hydro.wLowT Tm / q.nu := by
+    simp only [TPar.hydro]; field_simp
+  rw [hpm, junction_defect hvm hvm1 hvp1 (cb2_pos hq ht).ne' hnu (nu_cb2 hq ht) E, pH_alphaAt hq hTp]
+  ring
+
+/-- Given energy-flux conservation, momentum-flux conservation across the wall is *equivalent* to the
+template matching relation `α(T₊) = (v₊/v₋ − 1)(v₊v₋/cb² − 1)/(3(1 − v₊²))`. -/
+theorem momentum_iff_alpha (hq : q.WF) (ht : IsTemplateOf t q.hydro) {vp vm Tp Tm : ℝ}
+    (hvp1 : 1 - vp ^ 2 ≠ 0) (hvm : vm ≠ 0) (hvm1 : 1 - vm ^ 2 ≠ 0) (hTp : 0 < Tp)
+    (E : q.hydro.wHighT Tp * gammaSq vp * vp = q.hydro.wLowT Tm * gammaSq vm * vm) :
+    (q.hydro.wHighT Tp * gammaSq vp * vp ^ 2 + q.hydro.pHighT Tp
+      = q.hydro.wLowT Tm * gammaSq vm * vm ^ 2 + q.hydro.pLowT Tm)
+      ↔ q.alphaAt Tp = alphaCode vp vm t.cb2 := by
+  have hnu : q.nu ≠ 0 := by linarith [hq.nu_gt]
+  have hw := (wH_pos hq hTp).ne'
+  rw [← sub_eq_zero, momentum_defect_alpha hq ht hvp1 hvm hvm1 hTp E]
+  have : 3 * q.hydro.wHighT Tp / q.nu ≠ 0 := by positivity
+  rw [mul_eq_zero, or_iff_right this, sub_eq_zero, eq_comm]
+
+end alpha
+
+/-! ## `wFromAlpha` and its `1e-100` regulators -/
+
+/-- the regulator `1e-100` -/
+noncomputable def reg : ℝ := (1 / 10000000000000000000000000000000000000000000000000000000000000000000000000000000000000000000000000000 : ℝ)
+
+theorem reg_pos : 0 < reg := by unfold reg; positivity
+theorem reg_eq : reg = 1 / 10 ^ 100 := by unfold reg; norm_num
+
+/-- numerator `N = (1 − 3αN) μ − ν` of the exact enthalpy ratio -/
+def wNum (t : TemplP) : ℝ := (1 - 3 * t.alN) * t.mu - t.nu
+/-- denominator `D = (1 − 3α₊) μ − ν` of the exact enthalpy ratio -/
+def wDen (t : TemplP) (al : ℝ) : ℝ := (1 - 3 * al) * t.mu - t.nu
+
+theorem sign_mul_sign_of_pos {x y : ℝ} (h : 0 < x * y) : WG.R.sign x * WG.R.sign y = 1 := by
+  rcases pos_and_pos_or_neg_and_neg_of_mul_pos h with ⟨hx, hy⟩ | ⟨hx, hy⟩
+  · simp [WG.R.sign, hx, hy, not_lt.mpr hx.le, not_lt.mpr hy.le]
+  · simp [WG.R.sign, hx, hy]
+
+/-- When `N` and `D` have the same (non-zero) sign, the code returns `(|N| + 1e-100)/(|D| + 1e-100)`. -/
+theorem wFromAlpha_of_pos {t : TemplP} {al : ℝ} (h : 0 < wNum t * wDen t al) :
+    wFromAlpha t al = (|wNum t| + reg) / (|wDen t al| + reg) := by
+  have hs := sign_mul_sign_of_pos h
+  unfold wNum wDen at hs
+  simp only [wFromAlpha, hs, one_mul]; rfl
+
+theorem wFromAlpha_pos {t : TemplP} {al : ℝ} (h : 0 < wNum t * wDen t al) : 0 < wFromAlpha t al := by
+  rw [wFromAlpha_of_pos h]
+  have := reg_pos
+  positivity
+
+/-- Exact deviation of the regularised ratio from `N/D` (in the division-free form `D·w − N`). -/
+theorem wFromAlpha_defect {t : TemplP} {al : ℝ} (h : 0 < wNum t * wDen t al) :
+    |wDen t al * wFromAlpha t al - wNum t| = reg * |(|wDen t al| - |wNum t|)| / (|wDen t al| + reg) := by
+  have hr := reg_pos
+  rw [wFromAlpha_of_pos h]
+  have hpos : 0 < |wDen t al| + reg := by positivity
+  rcases pos_and_pos_or_neg_and_neg_of_mul_pos h with ⟨hN, hD⟩ | ⟨hN, hD⟩
+  · rw [abs_of_pos hN, abs_of_pos hD] at *
+    have : wDen t al * ((wNum t + reg) / (wDen t al + reg)) - wNum t
+        = reg * (wDen t al - wNum t) / (wDen t al + reg) := by field_simp; ring
+    rw [this, abs_div, abs_mul, abs_of_pos hr, abs_of_pos hpos]
+  · rw [abs_of_neg hN, abs_of_neg hD] at *
+    have : wDen t al * ((-wNum t + reg) / (-wDen t al + reg)) - wNum t
+        = - (reg * (-wDen t al - -wNum t) / (-wDen t al + reg)) := by field_simp; ring
+    rw [this, abs_neg, abs_div, abs_mul, abs_of_pos hr, abs_of_pos hpos]
+
+theorem wFromAlpha_defect_le {t : TemplP} {al : ℝ} (h : 0 < wNum t * wDen t al) :
+    |wDen t al * wFromAlpha t al - wNum t| ≤ reg * (1 + |wNum t / wDen t al|) := by
+  have hr := reg_pos
+  have hD : wDen t al ≠ 0 := by rintro h0; rw [h0, mul_zero] at h; exact lt_irrefl _ h
+  have hD' : 0 < |wDen t al| := abs_pos.mpr hD
+  rw [wFromAlpha_defect h, mul_div_assoc]
+  apply mul_le_mul_of_nonneg_left _ hr.le
+  rw [abs_div, div_le_iff₀ (by positivity)]
+  have h1 : |(|wDen t al| - |wNum t|)| ≤ |wDen t al| + |wNum t| := by
+    rw [abs_le]; constructor <;> linarith [abs_nonneg (wDen t al), abs_nonneg (wNum t)]
+  have h2 : (1 + |wNum t| / |wDen t al|) * (|wDen t al| + reg)
+      = |wDen t al| + |wNum t| + reg * (1 + |wNum t| / |wDen t al|) := by field_simp
+  rw [h2]
+  have : 0 ≤ reg * (1 + |wNum t| / |wDen t al|) := by positivity
+  linarith
+
+
+section deflag
+variable {q : TPar} {t : TemplP}
+
+theorem deflagTpTm_eq (t : TemplP) (vm vp : ℝ) :
+    deflagTpTm t vm vp =
+      (vp, vm, t.Tnucl * WG.R.rpow (wFromAlpha t (alphaCode vp vm t.cb2)) (1 / t.mu),
+        findTm t vm vp (t.Tnucl * WG.R.rpow (wFromAlpha t (alphaCode vp vm t.cb2)) (1 / t.mu))) := rfl
+
+/-- `T₊ = Tn · w₊^{1/μ}` has enthalpy `w₊(T₊) = wN · w₊` (for `w₊ > 0`). -/
+theorem wH_TpOfW (hq : q.WF) (ht : IsTemplateOf t q.hydro) {wp : ℝ} (hwp : 0 < wp) :
+    q.hydro.wHighT (t.Tnucl * WG.R.rpow wp (1 / t.mu)) = t.wN * wp := by
+  have hmu : q.mu ≠ 0 := by linarith [hq.mu_gt]
+  rw [wN_eq ht, Tnucl_eq ht, mu_eq hq ht]
+  simp only [WG.R.rpow, Real.rpow_eq_pow, TPar.hydro]
+  rw [Real.mul_rpow hq.Tn_pos.le (Real.rpow_nonneg hwp.le _), ← Real.rpow_mul hwp.le,
+    one_div_mul_cancel hmu, Real.rpow_one]
+  ring
+
+theorem TpOfW_pos (hq : q.WF) (ht : IsTemplateOf t q.hydro) {wp : ℝ} (hwp : 0 < wp) :
+    0 < t.Tnucl * WG.R.rpow wp (1 / t.mu) := by
+  rw [Tnucl_eq ht]
+  exact mul_pos hq.Tn_pos (Real.rpow_pos_of_pos hwp _)
+
+/-- Momentum-flux defect of the template's `(v₊, v₋, T₊, T₋)` in the *general* junction condition:
+`−wN/(μν) · (D·w₊ − N)` where `w₊` is whatever enthalpy ratio was used for `T₊ = Tn w₊^{1/μ}` and
+`N/D` is the exact ratio. -/
+theorem momentum_defect_TpOfW (hq : q.WF) (ht : IsTemplateOf t q.hydro) {vp vm wp Tm : ℝ}
+    (hvp1 : 1 - vp ^ 2 ≠ 0) (hvm : vm ≠ 0) (hvm1 : 1 - vm ^ 2 ≠ 0) (hwp : 0 < wp)
+    (E : q.hydro.wHighT (t.Tnucl * WG.R.rpow wp (1 / t.mu)) * gammaSq vp * vp
+          = q.hydro.wLowT Tm * gammaSq vm * vm) :
+    (q.hydro.wHighT (t.Tnucl * WG.R.rpow wp (1 / t.mu)) * gammaSq vp * vp ^ 2
+        + q.hydro.pHighT (t.Tnucl * WG.R.rpow wp (1 / t.mu)))
+      - (q.hydro.wLowT Tm * gammaSq vm * vm ^ 2 + q.hydro.pLowT Tm)
+      = - (t.wN / (q.mu * q.nu)) * (wDen t (alphaCode vp vm t.cb2) * wp - wNum t) := by
+  have hnu : q.nu ≠ 0 := by linarith [hq.nu_gt]
+  have hmu : q.mu ≠ 0 := by linarith [hq.mu_gt]
+  have hw := (wN_pos hq ht).ne'
+  have hTp := TpOfW_pos hq ht hwp
+  rw [momentum_defect_alpha hq ht hvp1 hvm hvm1 hTp E, alphaAt_eq hq hTp, wH_TpOfW hq ht hwp]
+  have hN := alN_N hq ht
+  unfold wNum wDen
+  rw [mu_eq hq ht, nu_eq hq ht]
+  have hε : q.eps = - (((1 - 3 * t.alN) * q.mu - q.nu) * t.wN) / (q.mu * q.nu) := by
+    rw [hN]; field_simp
+  generalize alphaCode vp vm t.cb2 = al
+  rw [hε]
+  field_simp
+  ring
+
+end deflag
+
+/-! ## `getVp`: the quadratic it solves -/
+
+/-- discriminant used by `getVp` (before clipping at 0) -/
+def vpDisc (cb2 vm al : ℝ) : ℝ :=
+  (((vm ^ 4) - ((((2 : ℝ) * cb2) * (vm ^ 2)) * ((1 : ℝ) - ((6 : ℝ) * al)))) +
+    ((cb2 ^ 2) * ((1 : ℝ) - ((((12 : ℝ) * (vm ^ 2)) * al) * ((1 : ℝ) - ((3 : ℝ) * al))))))
+
+/-- the quadratic in `v₊` whose roots are `getVp (·) (·) (±1)`:
+`v₋(1+3cb²α)·v₊² − (cb² + v₋²)·v₊ + cb² v₋ (1 − 3α)` -/
+def vpQuad (cb2 vm al vp : ℝ) : ℝ :=
+  (vm + 3 * cb2 * vm * al) * vp ^ 2 - (cb2 + vm ^ 2) * vp + cb2 * vm * (1 - 3 * al)
+
+theorem vpDisc_eq (cb2 vm al : ℝ) :
+    vpDisc cb2 vm al = (cb2 + vm ^ 2) ^ 2 - 4 * (vm + 3 * cb2 * vm * al) * (cb2 * vm * (1 - 3 * al)) := by
+  unfold vpDisc; ring
+
+theorem getVp_eq {t : TemplP} {vm al b : ℝ} (hd : 0 ≤ vpDisc t.cb2 vm al) :
+    getVp t vm al b = (1 / 2 : ℝ) * (t.cb2 + vm ^ 2 + b * Real.sqrt (vpDisc t.cb2 vm al))
+        / (vm + 3 * t.cb2 * vm * al) := by
+  have : WG.R.pmax 0 (vpDisc t.cb2 vm al) = vpDisc t.cb2 vm al := by
+    rw [WG.R.pmax_eq_max]; exact max_eq_right hd
+  unfold vpDisc at this
+  simp only [getVp, this]; rfl
+
+/-- `getVp` returns a root of `vpQuad` (either branch) when the discriminant is non-negative. -/
+theorem getVp_root {t : TemplP} {vm al b : ℝ} (hA : vm + 3 * t.cb2 * vm * al ≠ 0)
+    (hd : 0 ≤ vpDisc t.cb2 vm al) (hb : b ^ 2 = 1) :
+    vpQuad t.cb2 vm al (getVp t vm al b) = 0 := by
+  have hs : Real.sqrt (vpDisc t.cb2 vm al) ^ 2 = vpDisc t.cb2 vm al := Real.sq_sqrt hd
+  rw [getVp_eq hd]
+  set S := Real.sqrt (vpDisc t.cb2 vm al)
+  rw [vpDisc_eq] at hs
+  have hvm : vm ≠ 0 := by rintro rfl; simp at hA
+  have hK : 1 + 3 * t.cb2 * al ≠ 0 := by
+    intro h0; apply hA; linear_combination vm * h0
+  unfold vpQuad
+  field_simp
+  linear_combination S ^ 2 * hb + hs
+
+/-- The quadratic is the matching relation `α = (v₊/v₋ − 1)(v₊v₋/cb² − 1)/(3(1 − v₊²))`. -/
+theorem vpQuad_iff_alpha {cb2 vm al vp : ℝ} (hvm : vm ≠ 0) (hcb : cb2 ≠ 0) (hvp : 1 - vp ^ 2 ≠ 0) :
+    vpQuad cb2 vm al vp = 0 ↔ al = alphaCode vp vm cb2 := by
+  unfold vpQuad alphaCode
+  constructor
+  · intro h; field_simp; linear_combination (-1) * h
+  · intro h; rw [h]; field_simp; ring
+
+/-! ## Detonations -/
+
+/-- `part` of `detonationVAndT` -/
+def detPart (t : TemplP) (vp : ℝ) : ℝ :=
+  ((vp ^ 2) + (t.cb2 * ((1 : ℝ) - (((3 : ℝ) * ((1 : ℝ) - (vp ^ 2))) * t.alN))))
+
+/-- `v₋` of `detonationVAndT` -/
+noncomputable def detVm (t : TemplP) (vp : ℝ) : ℝ :=
+  (detPart t vp + Real.sqrt (detPart t vp ^ 2 - 4 * t.cb2 * vp ^ 2)) / (2 * vp)
+
+theorem detonationVAndT_eq (t : TemplP) (vw : ℝ) :
+    detonationVAndT t vw = (vw, detVm t vw, t.Tnucl, findTm t (detVm t vw) vw t.Tnucl) := rfl
+
+/-- `v₋` of a detonation is a root of `v₊ v₋² − part·v₋ + cb² v₊`. -/
+theorem detVm_root {t : TemplP} {vp : ℝ} (hvp : vp ≠ 0)
+    (hd : 0 ≤ detPart t vp ^ 2 - 4 * t.cb2 * vp ^ 2) :
+    vp * detVm t vp ^ 2 - detPart t vp * detVm t vp + t.cb2 * vp = 0 := by
+  have hs := Real.sq_sqrt hd
+  unfold detVm
+  set S := Real.sqrt (detPart t vp ^ 2 - 4 * t.cb2 * vp ^ 2)
+  field_simp
+  linear_combination hs
+
+/-- that quadratic is the matching relation with `α₊ = αN`. -/
+theorem detQuad_iff_alpha {t : TemplP} {vp vm : ℝ} (hvm : vm ≠ 0) (hcb : t.cb2 ≠ 0)
+    (hvp : 1 - vp ^ 2 ≠ 0) :
+    vp * vm ^ 2 - detPart t vp * vm + t.cb2 * vp = 0 ↔ t.alN = alphaCode vp vm t.cb2 := by
+  unfold detPart alphaCode
+  constructor
+  · intro h; field_simp; linear_combination h
+  · intro h; rw [h]; field_simp; ring
+
+
 end Lemmas.Template
